@@ -66,3 +66,8 @@ pub fn algo_by_id(id: u8) -> &'static Algorithm {
         _ => &aead::CHACHA20_POLY1305,
     }
 }
+
+pub fn force_plain<P: Payload>(pc: &mut PeerCrypto<P>) {
+    pc.unencrypted = true;
+    pc.init = None;
+}
